@@ -972,6 +972,19 @@ class Exec:
 
     # ---- expressions
     def eval(self, e):
+        ab = getattr(self.k, 'abstract', None)
+        if ab and isinstance(e, (ast.Call, ast.DictComp, ast.ListComp, ast.Dict, ast.Subscript, ast.BinOp, ast.JoinedStr, ast.Attribute, ast.IfExp, ast.Compare)):
+            # declared abstraction (DESIGN §2.2): the expression is replaced by a fresh unconstrained value of its declared
+            # sort; allowed only for expressions that cannot write modelled state, and listed in the evidence
+            src = ast.unparse(e)
+            for key, ty in ab.items():
+                if src == key or (key.endswith('*') and src.startswith(key[:-1])):
+                    self.abstracted.append('%s @%d -> %s' % (src[:60], getattr(e, 'lineno', 0), ty))
+                    if ty is None:
+                        return None
+                    if callable(ty) and not isinstance(ty, Ty):
+                        return ty(self, e)
+                    return self.wrap(self.fresh('abstract', ty), ty) if isinstance(ty, Ty) else ty
         m = getattr(self, 'ev_' + type(e).__name__, None)
         if m is None:
             raise Unsupported('expression %s at line %d' % (type(e).__name__, getattr(e, 'lineno', 0)))
